@@ -18,33 +18,73 @@ class ShamirStream(Stream):
         # property predicate on implementation outputs: a subset of >= threshold shares must give the secret back
         if "!secret=" in impl:
             return "Combine of at least threshold shares did not return the secret"
+        if op.startswith("split\t") and impl not in ("panic",) and not impl.startswith("err"):
+            # x-coordinates (the tag byte of every share Split returned) must be distinct and non-zero,
+            # and every share is one byte longer than the secret
+            f = op.split("\t")
+            secret = b"" if f[1] == "-" else bytes.fromhex(f[1])
+            shares = [bytes.fromhex(x) for x in impl.split(",") if x and x != "-"]
+            tags = [sh[-1] for sh in shares if sh]
+            if any(len(sh) != len(secret) + 1 for sh in shares):
+                return {"what": "Split returned a share whose length is not len(secret)+1", "signature": "c20-share-shape"}
+            if 0 in tags:
+                return {"what": "Split used the x-coordinate 0 (that share is the secret itself)", "signature": "c20-x-zero"}
+            if len(set(tags)) != len(tags):
+                return {"what": "Split used an x-coordinate twice", "signature": "c20-x-duplicate"}
         if impl == "panic" and not (op.startswith("div\t") and op.endswith("\t0")) and not (op.startswith("eval\t") and op.endswith("\t0")):
             return "panic outside the documented x=0 / divide-by-zero guards"
         return None
 
 
+class ThresholdStream(Stream):
+    name = "threshold"
+    driver = "threshold"
+    harness = {"name": "vault_c20", "module": "root", "pkg": "./internal/vault",
+               "files": {"internal/vault/zz_verif_c20_test.go": "wb/vault_c20/zz_verif_c20_test.go",
+                         "internal/zzverif/vh/vh.go": "vh/vh.go"}}
+    testname = "TestVerifC20Threshold"
+    rule = ("real initialized sealed cores with (shares, threshold) in {(1,1),(2,2),(3,2),(5,3)} (thorough: + (4,4),(7,4),"
+            "(10,5),(20,2),(255,6)); per case a random sequence of submissions to SealManager.unsealFragment drawn "
+            "from genuine shares, repeats, too short, too long, garbage of valid length, a genuine share with a "
+            "changed y byte (same x tag), odd valid lengths; compared: outcome class, recovered key, "
+            "len(unlockInformation.Parts); then a live Core.Unseal with threshold genuine shares and a duplicate; "
+            "non-trivial = the part is recorded or completes an attempt")
+
+    def nontrivial(self, op, impl):
+        return impl.startswith("pending") or impl.startswith("key") or impl.startswith("cerr")
+
+
 class C20(PropCheck):
     pid = "C20"
     lean_modules = ["C20", "C20Gen"]
+    streams = [ShamirStream(), ThresholdStream()]
 
     def pre(self, ctx):
         core.regenerate()
-    streams = [ShamirStream()]
     assumptions = [
         "crypto/rand output is uniform (the model takes the coefficients and the shuffled x-coordinates as inputs)",
         "constant-time behaviour is not modelled",
+        "threshold accounting is modelled for the unseal path (SealManager.unsealFragment); rekey/rotate/generate-root use the "
+        "same shape (duplicate check, append, len < threshold, Parts[0] | Combine, reset) but are not driven by a stream",
     ]
     level_text = ("Lean theorems over a model of sdk/helper/shamir (GF(2^8) arithmetic, Horner evaluation, Lagrange "
-                  "interpolation, Split with its randomness as an input, Combine); the model is tied to the Go code by an "
-                  "exhaustive comparison of mult/add/div/inverse over all inputs and a differential stream for Split/Combine "
-                  "with replayed randomness on every run")
+                  "interpolation, Split with its randomness as an input, Combine) and of the unseal threshold accounting "
+                  "(seal_manager.go unsealFragment/recordUnsealPart/getUnsealKey): the arithmetic is a field, Combine of any "
+                  ">= t distinct shares returns the secret, t-1 shares are consistent with every secret (exactly one "
+                  "coefficient table each), no key before threshold distinct parts; the models are tied to the Go code by "
+                  "an exhaustive comparison of mult/add/div/inverse over all inputs, a differential stream for Split/Combine "
+                  "with replayed randomness (plus an influence test: one coefficient byte changes exactly one share "
+                  "column), a differential stream through a real sealed core, and a regenerated translation of "
+                  "mult/inverse/add from the Go AST proved equal to the model (C20Gen), on every run")
     level_note = ("trusted: Lean kernel; the hand-written model and its differential tie (harness + driver); crypto/rand "
                   "uniformity; theorems proved so far are listed with their axioms in the evidence file")
     technique = "Lean 4 theorems (decide +kernel tables, induction, Mathlib Lagrange) + exhaustive/differential correspondence"
     trusted_base = [
         "Lean 4.33.0 kernel",
         "hand-written model Obao/Model/GF256.lean tied to sdk/helper/shamir by the exhaustive/differential stream 'shamir'",
-        "Go harness harness/wb/shamir (overlaid, build tag verif) and lib/*.py diff",
+        "hand-written model Obao/Model/Threshold.lean tied to SealManager.unsealFragment by the differential stream 'threshold'",
+        "Go harnesses harness/wb/shamir, harness/wb/vault_c20 (overlaid, build tag verif) and lib/*.py diff",
+        "Mathlib (Field, Polynomial, Lagrange.interpolate) as checked by the Lean kernel",
     ]
 
 
